@@ -50,13 +50,17 @@ Proof. exact alu_ok. Qed.
 Print Assumptions C01_alu.
 Theorem C01_addhl : forall hl u f, wf_f f -> alu_addhl hl u f = addhl_doc hl u f.
 Proof. exact addhl_ok. Qed.
+Print Assumptions C01_addhl.
 Theorem C01_addsp : forall spv e f, e < 256 -> wf_f f -> alu_addsp spv e f = addsp_doc spv e.
 Proof. exact addsp_ok. Qed.
+Print Assumptions C01_addsp.
 
 (* DAA: the model and the documented BCD adjustment both reproduce every row of the repository's daa.csv, and the
    table lists every (A, N/H/C) input. *)
 Theorem C01_daa_table : forallb daa_row_ok daa_rows = true.
 Proof. exact daa_table_ok. Qed.
+Print Assumptions C01_daa_table.
 Theorem C01_daa_table_complete : daa_inputs_present = true.
 Proof. exact daa_table_complete. Qed.
+Print Assumptions C01_daa_table_complete.
 Print Assumptions C01_daa_table.
